@@ -50,11 +50,9 @@ Proof.
     + rewrite list_mul_singleton, List.map_map. reflexivity.
   - induction orders as [|o orders IH]; [reflexivity|].
     cbn [List.map py_mapM]. rewrite IH. clear IH.
-    assert (Hb : (py_len l <=? Z.of_nat o) = Nat.leb (length l) o).
-    { unfold py_len. destruct (Nat.leb_spec (length l) o); [apply Z.leb_le|apply Z.leb_gt]; lia. }
-    rewrite Hb. destruct (Nat.leb_spec (length l) o) as [Hle|Hlt].
-    + rewrite !bind_ret. reflexivity.
-    + rewrite py_index_nat. rewrite (nth_error_nth' l 0 Hlt). rewrite !bind_ret. reflexivity.
+    unfold py_len. destruct (Nat.leb_spec (length l) o) as [Hle|Hlt].
+    + cmp_cases; try (exfalso; lia); rewrite !bind_ret; reflexivity.
+    + cmp_cases; try (exfalso; lia); rewrite py_index_nat, (nth_error_nth' l 0 Hlt), !bind_ret; reflexivity.
 Qed.
 Print Assumptions gen_get_inverse_roots_with_default_eq_model.
 
